@@ -105,6 +105,9 @@ META["rule"] += (
 META["rule"] += (
     " " + 'Added after the sixth round: family of recurrence plots by local recurrence rate / adaptive neighbourhood size (twins = identical rows); in half of the repeated twins queries the caller has refilled the array it handed to the embedding setter.')
 
+META["rule"] += (
+    " " + 'Added after the eighth round: records in units of 2^+-25 / 2^+-40; the caller appends to and truncates the lists returned by RecurrencePlot.twins.')
+
 # --------------------------------------------------------------------------
 # data
 # --------------------------------------------------------------------------
@@ -148,6 +151,9 @@ def gen_data(r, cls, N, n):
             x[0] = r.normal(size=n)
     else:
         raise ValueError(cls)
+    if cls in ("normal", "smooth") and r.random() < 0.25:
+        # the unit of the record is the caller's choice (exact rescaling)
+        x = x * 2.0 ** int(r.choice([-40, -25, 25, 40]))
     return np.ascontiguousarray(x)
 
 
@@ -803,6 +809,14 @@ def rp_case(ctx, RP, cid, r, n):
                 ctx.count("rp_twins_compared")
                 if pairs:
                     ctx.nontrivial(key)
+                # the lists now belong to the caller, who keeps working
+                # with them (the next answer is compared like this one)
+                if isinstance(lt, list) and c % 2 == 0:
+                    for q_ in lt:
+                        if isinstance(q_, list):
+                            q_.append(0)
+                    del lt[len(lt) // 2:]
+                    ctx.count("rp_twins_lists_edited_by_caller")
         else:
             nsur = int(r.integers(1, 4))
             done.append(("twin_surrogates", nsur, md))
